@@ -485,24 +485,24 @@ func typeShort(t types.Type) string {
 }
 
 func isPtrToNamed(t types.Type, name string) bool {
-	p, ok := t.(*types.Pointer)
+	p, ok := types.Unalias(t).(*types.Pointer)
 	if !ok {
 		return false
 	}
-	n, ok := p.Elem().(*types.Named)
+	n, ok := types.Unalias(p.Elem()).(*types.Named)
 	return ok && n.Obj().Name() == name
 }
 
 func isNamed(t types.Type, name string) bool {
-	n, ok := t.(*types.Named)
+	n, ok := types.Unalias(t).(*types.Named)
 	return ok && n.Obj().Name() == name
 }
 
 func derefNamed(t types.Type) *types.Named {
-	if p, ok := t.(*types.Pointer); ok {
+	if p, ok := types.Unalias(t).(*types.Pointer); ok {
 		t = p.Elem()
 	}
-	n, _ := t.(*types.Named)
+	n, _ := types.Unalias(t).(*types.Named)
 	return n
 }
 
